@@ -1,9 +1,15 @@
 import GoDcp.Props.C10
 open GoDcp.Membership
 #print axioms rank_numbering
+#print axioms rank_numbering_order_free
+#print axioms rank_numbering_join_order
 #print axioms same_live_set_agree
 #print axioms rank_numbering_tie_refuted
+#print axioms rank_numbering_tie_fixed
+#print axioms rankNumberingPreFix_eq_of_distinct
+#print axioms sortJTId_eq_of_perm
 #print axioms sortJT_eq_of_perm
+#print axioms preFix_eq_of_distinct
 #print axioms view_stable
 #print axioms step_inv
 #print axioms converges
